@@ -48,6 +48,8 @@ mod node;
 mod root;
 mod signals;
 mod utils;
+#[cfg(feature = "verif")]
+pub mod verif;
 
 pub use context::*;
 pub use effects::*;
